@@ -254,7 +254,7 @@ def _in_child(fn, *args, timeout=12.0):
         code = 0
         try:
             rd.close()
-            resource.setrlimit(resource.RLIMIT_AS, (4 << 30, 4 << 30))
+            resource.setrlimit(resource.RLIMIT_AS, (2 << 30, 2 << 30))
             try:
                 wr.send(("ok", fn(*args)))
             except BaseException as e:  # noqa: BLE001  (pyo3 PanicException is a BaseException)
@@ -942,6 +942,52 @@ def coq_case(case, P, R):
     return None
 
 
+
+# ====================================================================== scale probe (known divergence beyond 10^6 nodes)
+CAP_ID = "C12-python-iteration-cap"
+
+
+def _scale_probe():
+    """Path graph 0 -> 1 -> ... -> N-1 with N = 1_000_002: solvor.bfs.bfs()/dfs() (and dijkstra()) stop after
+    max_iter = 1_000_000 iterations, the Rust kernels have no cap.  Returns a dict of observations."""
+    from solvor.bfs import bfs_edges
+
+    n = 1_000_002
+    edges = [(i, i + 1) for i in range(n - 1)]
+    out = {}
+    for b in ("python", "rust"):
+        r = bfs_edges(n, edges, 0, backend=b)
+        out[f"reach_{b}"] = (r.status.name, len(r.solution) if r.solution is not None else None)
+        r = bfs_edges(n, edges, 0, target=n - 1, backend=b)
+        out[f"target_{b}"] = (r.status.name, canon(r.objective))
+    return out
+
+
+def scale_probe(ctx):
+    r = _in_child(_scale_probe, timeout=120.0)
+    ctx.evaluations += 4
+    if r[0] != "ok":
+        ctx.notes.append(f"scale probe (10^6+2 nodes) did not finish: {r}")
+        return
+    o = r[1]
+    ctx.extra["scale_probe"] = o
+    if o["reach_python"] == o["reach_rust"] and o["target_python"] == o["target_rust"]:
+        return
+    n = 1_000_002
+    described = (o["reach_rust"] == ("OPTIMAL", n) and o["target_rust"] == ("OPTIMAL", n - 1)
+                 and o["reach_python"] == ("OPTIMAL", n - 1) and o["target_python"] == ("MAX_ITER", "inf"))
+    what = (f"bfs_edges on the path graph with {n} nodes: no target python {o['reach_python']} vs rust {o['reach_rust']} (status, number of nodes); "
+            f"target={n - 1}: python {o['target_python']} vs rust {o['target_rust']} (status, objective) - bfs() stops after max_iter=1_000_000 iterations")
+    if described:
+        opens = [f for f in ctx.open_findings() if "cap" in (f.get("id", "") + f.get("class", "")).lower() or "max_iter" in f.get("class", "")]
+        ctx.known_hit(opens[0]["id"] if opens else CAP_ID, what)
+        if not opens:
+            ctx.notes.append("scale probe: reported under the built-in id " + CAP_ID + " (entry proposed to the coordinator for known_findings.json); "
+                             "the theorems about bfs/dfs/dijkstra carry the hypothesis n <= 10^6 for this reason")
+    else:
+        ctx.violation(what, {"probe": o, "n": n, "edges": "[(i, i+1) for i in range(n-1)]"})
+
+
 # ====================================================================== the check
 def shrink(case, still_fails):
     c = dict(case)
@@ -1008,6 +1054,7 @@ def run(ctx: Ctx):
         cases += [gen_case(ctx.rng, fn, big) for _ in range(per_fn)]
 
     results = []
+    n_viol = 0
     all_outs = run_cases(cases)
     for case, outs in zip(cases, all_outs):
         ctx.evaluations += 3
@@ -1019,9 +1066,13 @@ def run(ctx: Ctx):
             ctx.count(f"status_{fn}", outs["python"][1]["status"])
         viol = [m for k, m in probs if k == "viol"]
         if viol:
-            small = shrink(clean(case), fails) if len(case["edges"]) <= 40 else clean(case)
+            n_viol += 1
+            if n_viol > 8:
+                continue      # finish() reports the first five; do not spend time on more
+            all_ok = all(outs[b][0] == "ok" for b in outs)
+            small = shrink(clean(case), fails) if (all_ok and n_viol <= 3 and len(case["edges"]) <= 40) else clean(case)
             ctx.violation(viol[0] if small == clean(case) else f"{viol[0]}  [shrunk to {call_str(small)}]",
-                          {"case": small, "original": clean(case), "outs": run_case_isolated(small)})
+                          {"case": small, "original": clean(case), "outs": outs if small == clean(case) else run_case_isolated(small)})
         if len(case["edges"]) >= 2 and outs["python"][0] == "ok":
             o = outs["python"][1]
             nt = (o["solution"] is not None) if case.get("target") is not None else True
@@ -1030,6 +1081,8 @@ def run(ctx: Ctx):
         ctx.sample({"call": call_str(case), "python": outs["python"][1] if outs["python"][0] == "ok" else outs["python"],
                     "rust": outs["rust"][1] if outs["rust"][0] == "ok" else outs["rust"]}, 4)
         results.append((case, outs, bool(viol)))
+
+    scale_probe(ctx)
 
     # ---- correspondence, kernel-checked, one lemma family per function: (python model ~ backend='python') && (rust model ~ backend='rust')
     disagree = []
